@@ -15,7 +15,9 @@ from .common import pmap
 
 def canon(d, d0):
     """canonical, process-independent form of a digest line relative to the process's first digest"""
-    c = {k: v for k, v in d.items() if k not in ('digest', 'env', 'cwd')}
+    # 'stdio' (orientation / error flags of the caller's stdout and stderr) only records that the library has written to those streams
+    # at least once: merging states that differ in it alone is sound for history exploration (C16 compares it in its steady-state digests)
+    c = {k: v for k, v in d.items() if k not in ('digest', 'env', 'cwd', 'stdio')}
     c['env_changed'] = d['env'] != d0['env']
     c['cwd_changed'] = d['cwd'] != d0['cwd']
     return json.dumps(c, sort_keys=True)
